@@ -1628,6 +1628,7 @@ func (f *Frame) execRange(ins *ssa.Range, st *State) Value {
 		f.visitedN[n] = c
 	}
 	it.Map = m
+	it.Dom0 = mapDom(f.mapObj(st, m, mt))
 	st.cells[it.Visited] = tConstArr(it.Visited.sort, tFalse())
 	return it
 }
@@ -1651,8 +1652,14 @@ func (f *Frame) execNext(ins *ssa.Next, st *State) Value {
 	b, x := freshBVar("x", k.Sort)
 	f.addHyp(st.pc, tImp(ok, tAnd(tNot(isNil), tSelect(dom, k), tNot(tSelect(vis, k)))))
 	f.addHyp(st.pc, tImp(tNot(ok), tOr(isNil, mkQuant("forall", []BVar{b}, tImp(tSelect(dom, x), tSelect(vis, x))))))
+	// a visited key was in the map when the range started or is in it now (the body may delete the key it is
+	// visiting: "visited => still in the map" would be contradictory then)
 	b2, x2 := freshBVar("x", k.Sort)
-	f.addHyp(st.pc, mkQuant("forall", []BVar{b2}, tImp(tSelect(vis, x2), tSelect(dom, x2))))
+	inDom := tSelect(dom, x2)
+	if it.Dom0 != nil && it.Dom0 != dom {
+		inDom = tOr(tSelect(it.Dom0, x2), inDom)
+	}
+	f.addHyp(st.pc, mkQuant("forall", []BVar{b2}, tImp(tSelect(vis, x2), inDom)))
 	st.cells[it.Visited] = tIte(ok, tStore(vis, k, tTrue()), vis)
 	v := tSelect(mapVal(o), k)
 	f.addHyp(st.pc, tImp(ok, typeFact(v, mt.Elem())))
